@@ -16,6 +16,7 @@
 -/
 import Proofs.Time
 import Proofs.CastInt
+import Proofs.LineTime
 
 namespace Jl.C14
 open Jl Cast
@@ -120,5 +121,128 @@ theorem read_write_read (ext : Ext) (s : Bytes) (t : GoTime) (h : Time.parseRFC3
   rw [toString_of_time]
   have : ¬ (Time.year t < 0 ∨ Time.year t > 9999) := by omega
   simp [this]
+
+/-! ### On the emitted BYTES: one line through importer and exporter (`Proofs/LineTime`)
+
+  `jlLine ti to line` is the importer's `GetRow` under `ti`, the exporter's `CreateRow` under `to` and
+  `row.MarshalJSON`, over the regenerated cast tables; the conclusions are about the object the model
+  of the reader delivers for the bytes written. -/
+
+open Jl.Template Jl.LineTime in
+/-- Date-time column in, date-time column out (raw type none or time.Time on either side), the line's
+    only member an RFC 3339 text denoting `t` with an offset below 24 h: for EVERY process zone the
+    line is accepted, and the member written is a text that parses to the same second, the same offset
+    and no sub-second part.  (Year range and whole-minute offset follow from the text being accepted.) -/
+theorem datetime_line_keeps_instant_and_offset (ext : Ext) (k : Bytes) (hk : JsonQuote.sanitize k = k)
+    {fi fo : Format} {tyi tyo : Ty} (hi : IsDT fi tyi) (ho : IsDT fo tyo) (line s : Bytes) (t : GoTime)
+    (hline : Json.unmarshal line = (.cons k (.str s) .nil, true))
+    (hp : Time.parseRFC3339 s = some t) (hlo : -86400 < t.off) (hhi : t.off < 86400) :
+    (∃ b, jlLine ⟨genTables, ext⟩ (withCol [] k fi tyi) (withCol [] k fo tyo) line = .ok (b, none)) ∧
+    ∀ b, jlLine ⟨genTables, ext⟩ (withCol [] k fi tyi) (withCol [] k fo tyo) line = .ok (b, none) →
+      ∃ body tree, b = body ++ [0x0A] ∧ Json.unmarshal body = (tree, true) ∧
+        ∃ s', LineSpec.lookupJV tree k = some (.str s') ∧
+          ∃ t', Time.parseRFC3339 s' = some t' ∧ t'.sec = t.sec ∧ t'.off = t.off ∧ t'.nsec = 0 :=
+  datetime_line_of_offset ext k hk hi ho line s t hline hp hlo hhi
+
+open Jl.Template Jl.LineTime in
+/-- "Whatever the process time zone", literally: the bytes written do not depend on `ext`. -/
+theorem datetime_line_zone_independent (ext₁ ext₂ : Ext) (k : Bytes) {fi fo : Format} {tyi tyo : Ty}
+    (hi : IsDT fi tyi) (ho : IsDT fo tyo) (line s : Bytes) (t : GoTime)
+    (hline : Json.unmarshal line = (.cons k (.str s) .nil, true))
+    (hp : Time.parseRFC3339 s = some t) :
+    jlLine ⟨genTables, ext₁⟩ (withCol [] k fi tyi) (withCol [] k fo tyo) line =
+      jlLine ⟨genTables, ext₂⟩ (withCol [] k fi tyi) (withCol [] k fo tyo) line :=
+  LineTime.datetime_line_zone_independent ext₁ ext₂ k hi ho line s t hline hp
+    (parsed_domain hp).1 (parsed_domain hp).2.1
+
+open Jl.Template Jl.LineTime in
+/-- Sub-second digits are dropped, never rounded up — on the bytes: the text of `t` with a fraction of
+    any length after `.` or `,` is written back exactly as the text of `t`. -/
+theorem subsecond_dropped_on_the_line (ext : Ext) (k : Bytes) {fi fo : Format} {tyi tyo : Ty}
+    (hi : IsDT fi tyi) (ho : IsDT fo tyo) (line : Bytes) (t : GoTime)
+    (hy0 : 0 ≤ Time.year t) (hy1 : Time.year t ≤ 9999)
+    (h60 : t.off % 60 = 0) (hlo : -86400 < t.off) (hhi : t.off < 86400)
+    (p : UInt8) (hp : p = 0x2E ∨ p = 0x2C) (ds : Bytes) (hne : ds ≠ [])
+    (hdig : ∀ c ∈ ds, Time.isDigit c = true)
+    (hline : Json.unmarshal line =
+      (.cons k (.str (Time.headText (Time.civilOf t) ++ (p :: ds ++ Time.formatZone t.off))) .nil,
+        true)) :
+    jlLine ⟨genTables, ext⟩ (withCol [] k fi tyi) (withCol [] k fo tyo) line =
+      .ok (LineTime.objText k (JsonWrite.quote (Time.formatRFC3339 t)) ++ [0x0A], none) :=
+  subsecond_line_written ext k hi ho line t hy0 hy1 h60 hlo hhi p hp ds hne hdig hline
+
+open Jl.Template Jl.LineTime in
+/-- Date-time column in, timestamp column out: for every process zone and every accepted text the line
+    is accepted and the member written is the integer literal of the instant's Unix second. -/
+theorem datetime_to_timestamp_line (ext : Ext) (k : Bytes) (hk : JsonQuote.sanitize k = k)
+    {fi fo : Format} {tyi tyo : Ty} (hi : IsDT fi tyi) (ho : IsTS fo tyo) (line s : Bytes) (t : GoTime)
+    (hline : Json.unmarshal line = (.cons k (.str s) .nil, true))
+    (hp : Time.parseRFC3339 s = some t) :
+    (∃ b, jlLine ⟨genTables, ext⟩ (withCol [] k fi tyi) (withCol [] k fo tyo) line = .ok (b, none)) ∧
+    ∀ b, jlLine ⟨genTables, ext⟩ (withCol [] k fi tyi) (withCol [] k fo tyo) line = .ok (b, none) →
+      ∃ body tree, b = body ++ [0x0A] ∧ Json.unmarshal body = (tree, true) ∧
+        LineSpec.lookupJV tree k = some (.num (IntText.formatInt t.sec)) :=
+  timestamp_line ext k hk hi ho line s t hline hp
+
+open Jl.Template Jl.LineTime in
+/-- Timestamp column in (an integer literal: Unix seconds), date-time column out: in two process zones,
+    each with its own offset at that instant, both lines are accepted and the two texts written denote
+    the SAME second, each at its zone's offset, with no sub-second part. -/
+theorem timestamp_to_datetime_same_instant_in_every_zone (ext₁ ext₂ : Ext) (k : Bytes)
+    (hk : JsonQuote.sanitize k = k) {fi fo : Format}
+    {tyi tyo : Ty} (hi : IsTS fi tyi) (ho : IsDT fo tyo) (line lit : Bytes) (n off₁ off₂ : Int)
+    (hline : Json.unmarshal line = (.cons k (.num lit) .nil, true))
+    (hn : IntText.parseInt0 lit 64 = some n)
+    (hz₁ : ext₁.zoneOffset n = some off₁) (hz₂ : ext₂.zoneOffset n = some off₂)
+    (hy₁ : 0 ≤ Time.year ⟨n, 0, off₁⟩ ∧ Time.year ⟨n, 0, off₁⟩ ≤ 9999)
+    (hy₂ : 0 ≤ Time.year ⟨n, 0, off₂⟩ ∧ Time.year ⟨n, 0, off₂⟩ ≤ 9999)
+    (h₁ : off₁ % 60 = 0 ∧ -86400 < off₁ ∧ off₁ < 86400)
+    (h₂ : off₂ % 60 = 0 ∧ -86400 < off₂ ∧ off₂ < 86400) :
+    ∃ body₁ body₂ tree₁ tree₂ s₁ s₂ t₁ t₂,
+      jlLine ⟨genTables, ext₁⟩ (withCol [] k fi tyi) (withCol [] k fo tyo) line =
+        .ok (body₁ ++ [0x0A], none) ∧
+      jlLine ⟨genTables, ext₂⟩ (withCol [] k fi tyi) (withCol [] k fo tyo) line =
+        .ok (body₂ ++ [0x0A], none) ∧
+      Json.unmarshal body₁ = (tree₁, true) ∧ Json.unmarshal body₂ = (tree₂, true) ∧
+      LineSpec.lookupJV tree₁ k = some (.str s₁) ∧ LineSpec.lookupJV tree₂ k = some (.str s₂) ∧
+      Time.parseRFC3339 s₁ = some t₁ ∧ Time.parseRFC3339 s₂ = some t₂ ∧
+      t₁.sec = n ∧ t₂.sec = n ∧ t₁.sec = t₂.sec ∧ t₁.off = off₁ ∧ t₂.off = off₂ ∧
+      t₁.nsec = 0 ∧ t₂.nsec = 0 :=
+  unix_line_same_instant ext₁ ext₂ k hk hi ho line lit n off₁ off₂ hline hn hz₁ hz₂ hy₁ hy₂ h₁ h₂
+
+open Jl.Template Jl.LineTime in
+/-- Templates with ANY number of columns declaring the same distinct names the escaper leaves alone (as
+    every `jl` definition does): on an accepted line, if every input member that is an RFC 3339 text
+    (as the oracle reads the input: last of repeated names) has an offset below 24 h and sits under a
+    date-time column of the importer whose exporter column is a date-time or timestamp column, then the
+    oracle the correspondence check applies to the implementation's output (`c14LineViolation`, restated
+    as `LineTime.c14Violation`) finds nothing on the model's output — whatever the other columns and
+    members are.  `FloatTextOK` is only there because other columns may print floats. -/
+theorem emitted_line_keeps_times (ext : Ext) (ti to : Tmpl) (line b : Bytes)
+    (h : jlLine ⟨genTables, ext⟩ ti to line = .ok (b, none)) (hx : JsonPrint.FloatTextOK ext)
+    (hto : (OMap.keys to).Nodup) (hperm : (OMap.keys ti).Perm (OMap.keys to))
+    (hutf : ∀ k ∈ OMap.keys to, JsonQuote.sanitize k = k)
+    (hin : ∀ k ∈ Order.inputKeys line, JsonQuote.sanitize k = k)
+    (hcols : ∀ k s t, (k, JV.str s) ∈ (LineSpec.normDup (Json.unmarshal line).1).toList →
+      Time.parseRFC3339 s = some t →
+      (-86400 < t.off ∧ t.off < 86400) ∧
+      ∃ raw₁ fi tyi raw₂ fo tyo, (k, Val.cell raw₁ fi tyi) ∈ ti ∧ (k, Val.cell raw₂ fo tyo) ∈ to ∧
+        IsDT fi tyi ∧ (IsDT fo tyo ∨ IsTS fo tyo)) :
+    LineTime.c14Violation line (jlLine ⟨genTables, ext⟩ ti to line) = none :=
+  emitted_line_oracle ext ti to line b h hx hto hperm hutf hin hcols
+
+/-- The one hypothesis of `datetime_line_keeps_instant_and_offset` that is not automatic cannot be
+    dropped: Go's parser accepts the offset `+24:00`, the exporter writes it, and the text written is no
+    longer accepted (cf. the known finding `offset-24-60` of C05). -/
+theorem line_offset_bound_needed (line : Bytes)
+    (hline : Json.unmarshal line = (.cons [0x74] (.str LineTime.Demo.farS) .nil, true)) :
+    ∃ body, Template.jlLine LineTime.Demo.env LineTime.Demo.tmpl LineTime.Demo.tmpl line =
+        .ok (body ++ [0x0A], none) ∧
+      Json.unmarshal body = (.cons [0x74] (.str LineTime.Demo.farOut) .nil, true) ∧
+      Time.parseRFC3339 LineTime.Demo.farOut = none ∧
+      LineTime.c14Violation line
+        (Template.jlLine LineTime.Demo.env LineTime.Demo.tmpl LineTime.Demo.tmpl line) =
+          some "written-text-unreadable" :=
+  LineTime.Demo.offset_bound_needed line hline
 
 end Jl.C14
